@@ -56,14 +56,16 @@ Definition has_meta (m : pmeta) : bool := match m with MNone => false | _ => tru
 
 (* exception classes that derive from BaseException but not from Exception *)
 Definition base_only_cls (cls : string) : bool :=
-  String.eqb cls "KeyboardInterrupt" || String.eqb cls "SystemExit" || String.eqb cls "GeneratorExit".
+  String.eqb cls "KeyboardInterrupt" || String.eqb cls "SystemExit" || String.eqb cls "GeneratorExit"
+  || String.eqb cls "VerifAbort".    (* harness-side BaseException subclass *)
 Definition base_only (e : err) : bool := match e with Err _ cls _ => base_only_cls cls end.
 Definition err_cls (e : err) : string := match e with Err _ cls _ => cls end.
 (* `except <handler class>` catches e *)
 Definition caught (catches_base : bool) (e : err) : bool := catches_base || negb (base_only e).
 
-Definition lib_interrupt : proc :=
-  mkProc KOp [] [] false TF [] [] (fun _ _ => Fail (perr "KeyboardInterrupt")).
+Definition lib_abort (cls : string) : proc :=
+  mkProc KOp [] [] false TF [] [] (fun _ _ => Fail (perr cls)).
+Definition lib_interrupt : proc := lib_abort "KeyboardInterrupt".
 
 (* ---- records ---------------------------------------------------------------------------------------------- *)
 Inductive chan := ChNode | ChContext | ChDefault.
